@@ -18,9 +18,17 @@ CATALOGUE = [
 
 KINDS = ["fn", "fn", "val", "bind", "struct", "ival", "fieldsof"]
 
-def ext_source(j, pkgname):
-    """source of external package j (all names carry j so that types of different packages are distinct)"""
-    return """package %(p)s
+def ext_source(j, pkgname, shared=False):
+    """source of external package j.  Function and variable names always carry j (a reference resolved to the wrong
+    package then fails to compile); with `shared` the *type* names are the same in every package (Svc, Cfg, ...), so
+    that only the package path tells them apart"""
+    txt = _EXT_SRC % dict(p=pkgname, j=j)
+    if shared:
+        import re
+        txt = re.sub(r"\b(Svc|Iface|Opt|Leaf|Cfg)%d\b" % j, r"\1", txt)
+    return txt
+
+_EXT_SRC = """package %(p)s
 
 type Svc%(j)d struct{ N int }
 
@@ -44,7 +52,7 @@ type Cfg%(j)d struct {
 }
 
 func NewCfg%(j)d() *Cfg%(j)d { return &Cfg%(j)d{A: &Leaf%(j)d{N: %(j)d}, B: "b"} }
-""" % dict(p=pkgname, j=j)
+"""
 
 def gen_case(rng):
     """an abstract case: which packages are used, in which file, under which local name, by which construct"""
@@ -94,11 +102,11 @@ def gen_case(rng):
                 nm, explicit = "y%d" % u["pkg"], True
             taken.add(nm)
             names[(f, u["pkg"])] = (nm, explicit)
-    return dict(uses=uses, nfiles=nfiles, names={"%d:%d" % k: v for k, v in names.items()}, order=rng.randint(0, 1))
+    return dict(uses=uses, nfiles=nfiles, names={"%d:%d" % k: v for k, v in names.items()}, order=rng.randint(0, 1), shared=rng.chance(0.5))
 
 def describe(case):
     return " ".join("%s:%s@f%d as %s%s" % (CATALOGUE[u["pkg"]][0], u["kind"], u["file"], case["names"]["%d:%d" % (u["file"], u["pkg"])][0],
-                                          "" if case["names"]["%d:%d" % (u["file"], u["pkg"])][1] else "(implicit)") for u in case["uses"]) + " files=%d" % case["nfiles"]
+                                          "" if case["names"]["%d:%d" % (u["file"], u["pkg"])][1] else "(implicit)") for u in case["uses"]) + " files=%d" % case["nfiles"] + (" shared-type-names" if case.get("shared") else "")
 
 def provided(u):
     """(type expression template with %(q)s for the qualifier, is it consumed by NewApp)"""
@@ -142,7 +150,7 @@ def render(case, prefix, pkgname):
     used_pk = sorted(set(u["pkg"] for u in uses))
     for j in used_pk:
         d, pn = CATALOGUE[j]
-        files["%s/%s/x.go" % (prefix, d)] = ext_source(j, pn)
+        files["%s/%s/x.go" % (prefix, d)] = ext_source(j, pn, case.get("shared"))
     def path(j):
         return "e2e/%s/%s" % (prefix, CATALOGUE[j][0])
     # types.go: the application, consuming everything provided; own unique aliases
@@ -181,6 +189,11 @@ def render(case, prefix, pkgname):
         name = "wire%d.go" % f
         files["%s/%s" % (pkgname, name)] = "//go:build wireinject\n\npackage %s\n\nimport (\n%s)\n\n%s" % (pkgname, "".join(imports), "\n".join(body))
         wire_files.append(name)
+    if case.get("shared"):
+        import re
+        for rel in list(files):
+            if rel.startswith(pkgname + "/"):
+                files[rel] = re.sub(r"\b(Svc|Iface|Opt|Leaf|Cfg)\d+\b", r"\1", files[rel])
     return files, dict(wire_files=wire_files, sets=sets, uses=uses)
 
 # ------------------------------------------------------------------------------------------------ failure kinds
